@@ -143,3 +143,25 @@ def args_forwarded(ev, fi, skip=1):
     elif kws:
         return False, "unexpected keyword arguments"
     return True, ""
+
+
+def truth_of(path, term):
+    """truth value this path took for `term` (from its branch history, which survives memo invalidation)"""
+    out = None
+    for e in path.events:
+        if e.kind == "branch":
+            t, v = e.d
+            neg = False
+            while isinstance(t, tuple) and t[0] == "not":
+                neg = not neg
+                t = t[1]
+            if t == term:
+                out = (v != neg)
+    if out is None:
+        return path.assume.get(term)
+    return out
+
+
+def result_of(ev):
+    """the value term of an opaque call event"""
+    return ("call", ev.d["func"], ev.d["args"], ev.d["kwargs"], ev.d.get("site"))
